@@ -1,8 +1,170 @@
 package peer
 
-import "verifharness/corr"
+import (
+	"fmt"
+	"net"
 
-// session-level and kernel-level scenarios are added here
-func runScenarioExt(c *corr.Ctx, sc *Scenario) bool { return false }
+	"verifharness/corr"
+)
 
-func runExt(c *corr.Ctx) {}
+func runScenarioExt(c *corr.Ctx, sc *Scenario) bool {
+	switch sc.Kind {
+	case "sess":
+		runSess(c, sc)
+		return true
+	}
+	return false
+}
+
+func runExt(c *corr.Ctx) {
+	for i, n := 0, c.N(700, 20000); i < n; i++ {
+		runScenario(c, genSess(c, i))
+	}
+}
+
+// ---- session-level generator ---------------------------------------------------------------------
+
+type sessGen struct {
+	c       *corr.Ctx
+	sc      *Scenario
+	nextCid int
+	nSess   int // sessions the generator believes exist (indices it may refer to)
+	ips     []net.IP
+	zones   []string
+	connIP  map[int]int
+	ports   []int
+}
+
+func (g *sessGen) open(ipIdx int) int {
+	cid := g.nextCid
+	g.nextCid++
+	g.connIP[cid] = ipIdx
+	g.sc.Ops = append(g.sc.Ops, Op{K: "xconn", Conn: cid, IP: hexIP(g.ips[ipIdx]), Zone: g.zones[ipIdx]})
+	return cid
+}
+
+func (g *sessGen) req(cid int, method string, sess int, proto string, rec bool, media, cport int) {
+	g.sc.Ops = append(g.sc.Ops, Op{K: "xreq", Conn: cid, Method: method, Sess: sess, Proto: proto, Any: rec, Media: media, Port: cport})
+}
+
+// script brings a fresh session (created on connection cid) to a target state; returns its index
+func (g *sessGen) victim(cid int, target int, base int) int {
+	idx := g.nSess
+	g.nSess++
+	proto := "udp"
+	if target%2 == 1 {
+		proto = "tcp"
+	}
+	switch target {
+	case 0, 1: // prePlay
+		g.req(cid, "SETUP", -1, proto, false, 0, base)
+		if g.c.Rng.IntN(2) == 0 {
+			g.req(cid, "SETUP", idx, proto, false, 1, base+2)
+		}
+	case 2, 3: // play
+		g.req(cid, "SETUP", -1, proto, false, 0, base)
+		if g.c.Rng.IntN(2) == 0 {
+			g.req(cid, "SETUP", idx, proto, false, 1, base+2)
+		}
+		g.req(cid, "PLAY", idx, proto, false, 0, 0)
+	case 4, 5: // preRecord, fully set up
+		g.req(cid, "ANNOUNCE", -1, proto, false, 0, 0)
+		g.req(cid, "SETUP", idx, proto, true, 0, base)
+		g.req(cid, "SETUP", idx, proto, true, 1, base+2)
+	case 6, 7: // record
+		g.req(cid, "ANNOUNCE", -1, proto, false, 0, 0)
+		g.req(cid, "SETUP", idx, proto, true, 0, base)
+		g.req(cid, "SETUP", idx, proto, true, 1, base+2)
+		g.req(cid, "RECORD", idx, proto, false, 0, 0)
+	case 8, 9: // preRecord, announced only
+		g.req(cid, "ANNOUNCE", -1, proto, false, 0, 0)
+	case 10, 11: // paused after play
+		g.req(cid, "SETUP", -1, proto, false, 0, base)
+		g.req(cid, "PLAY", idx, proto, false, 0, 0)
+		g.req(cid, "PAUSE", idx, proto, false, 0, 0)
+	default: // whatever a first SETUP gives (initial when UDP is disabled: 461 keeps the session)
+		g.req(cid, "SETUP", -1, "udp", false, 0, base)
+	}
+	return idx
+}
+
+var sessMethods = []string{"OPTIONS", "ANNOUNCE", "SETUP", "PLAY", "RECORD", "PAUSE", "TEARDOWN", "GET_PARAMETER"}
+
+func genSess(c *corr.Ctx, i int) *Scenario {
+	sc := &Scenario{Kind: "sess", Name: fmt.Sprintf("sess-%d", i)}
+	if c.Rng.IntN(6) == 0 {
+		sc.Cfg = "noudp"
+	}
+	g := &sessGen{c: c, sc: sc, connIP: map[int]int{}}
+	// address set: 0 = the author's address, 1 = its other textual form (Equal), 2.. = foreign
+	var a net.IP
+	switch c.Rng.IntN(4) {
+	case 0:
+		a = mapped(net.IPv4(10, 0, 0, 5))
+	case 1:
+		a = net.ParseIP("fe80::1")
+	default:
+		a = net.IPv4(10, 0, 0, 5).To4()
+	}
+	other := a
+	if len(a) == 4 {
+		other = mapped(a)
+	} else if a.To4() != nil {
+		other = a.To4()
+	}
+	g.ips = []net.IP{a, other, net.IPv4(10, 0, 0, 6).To4(), nearMapped(net.IPv4(10, 0, 0, 5), c.Rng.IntN(4)), net.ParseIP("::1"), a}
+	g.zones = []string{"", "", "", "", "", "eth1"}
+	if len(a) == 16 && a.To4() == nil {
+		g.zones[0], g.zones[1] = "eth0", "eth0"
+	}
+	base := []int{5000, 5002, 5004}[c.Rng.IntN(3)]
+	g.ports = []int{base, base + 1, base + 2, base + 3, base + 4, 6000}
+
+	author := g.open(0)
+	target := c.Rng.IntN(13)
+	v := g.victim(author, target, base)
+	victims := []int{v}
+	if c.Rng.IntN(3) == 0 {
+		// a second session, from the same address (port clashes) or from a foreign one
+		ipIdx := []int{0, 1, 2}[c.Rng.IntN(3)]
+		c2 := g.open(ipIdx)
+		victims = append(victims, g.victim(c2, c.Rng.IntN(13), []int{base, base + 2, base + 4}[c.Rng.IntN(3)]))
+	}
+	n := 2 + c.Rng.IntN(10)
+	for k := 0; k < n; k++ {
+		vi := victims[c.Rng.IntN(len(victims))]
+		switch r := c.Rng.IntN(20); {
+		case r < 9: // an intruder: new connection, replays a request with the victim's id
+			cid := g.open(1 + c.Rng.IntN(len(g.ips)-1))
+			if c.Rng.IntN(4) == 0 {
+				cid = g.open(0) // same address, other connection
+			}
+			m := sessMethods[c.Rng.IntN(len(sessMethods))]
+			proto := []string{"udp", "tcp"}[c.Rng.IntN(2)]
+			g.req(cid, m, vi, proto, c.Rng.IntN(3) == 0, c.Rng.IntN(3), g.ports[c.Rng.IntN(len(g.ports))])
+			if c.Rng.IntN(3) == 0 { // and once more on the same connection (normally closed by now)
+				g.req(cid, sessMethods[c.Rng.IntN(len(sessMethods))], vi, proto, false, 0, base)
+			}
+		case r < 13: // the owner goes on
+			m := sessMethods[c.Rng.IntN(len(sessMethods))]
+			sess := vi
+			if c.Rng.IntN(8) == 0 {
+				sess = []int{-1, -2}[c.Rng.IntN(2)]
+			}
+			proto := []string{"udp", "tcp"}[c.Rng.IntN(2)]
+			g.req(author, m, sess, proto, c.Rng.IntN(3) == 0, c.Rng.IntN(3), g.ports[c.Rng.IntN(len(g.ports))])
+		case r < 18: // a datagram
+			ch := []string{"rtp", "rtcp"}[c.Rng.IntN(2)]
+			sc.Ops = append(sc.Ops, Op{K: "xdgram", Chan: ch, IP: hexIP(g.ips[c.Rng.IntN(len(g.ips))]), Port: g.ports[c.Rng.IntN(len(g.ports))], Media: c.Rng.IntN(2)})
+		case r < 19:
+			sc.Ops = append(sc.Ops, Op{K: "xclose", Conn: c.Rng.IntN(g.nextCid)})
+		default: // a request without / with an unknown session id from a fresh connection
+			cid := g.open(c.Rng.IntN(len(g.ips)))
+			g.req(cid, sessMethods[c.Rng.IntN(len(sessMethods))], []int{-1, -2}[c.Rng.IntN(2)], "udp", false, 0, base)
+			if sessMethods != nil && c.Rng.IntN(2) == 0 {
+				g.nSess++ // may have created a session; indices beyond the real count are sent as unknown ids
+			}
+		}
+	}
+	return sc
+}
